@@ -39,11 +39,13 @@ TCopy == /\ Is("copyx") /\ CopyExcept(Ev.src, Ev.dst, Ev.s)
 TSwap == /\ Is("swap") /\ Swap(Ev.a, Ev.b) /\ bad' = Fails({<<"C10", CbExact(cbs')>>}) /\ UNCHANGED <<ph, rs, kf>>
 TDiff == /\ Is("diff") /\ NotifyDiff(Ev.new, Ev.old, Ev.s)
          /\ bad' = Fails({<<"C10", CbExact(cbs')>>}) /\ UNCHANGED <<ph, rs, kf>>
-TGet  == /\ Is("get") /\ alive[Ev.t]
+TLookupFailed == /\ l <= Len(JTrace) /\ Ev.e \in {"get", "ski"} /\ AF /\ Ev.rc = "err" /\ l' = l + 1
+                 /\ bad' = {} /\ UNCHANGED <<vars, kf>>
+TGet  == /\ Is("get") /\ alive[Ev.t] /\ ~(AF /\ Ev.rc = "err")
          /\ bad' = Fails({<<"C10", Ev.rc = "ok">>, <<"C10", NoRepeat(Ev.res)>>,
                           <<"C10", SeqToSet(Ev.res) = GetAll(Ev.t, Ev.a, Ev.k)>>})
          /\ UNCHANGED <<vars, kf>>
-TSki  == /\ Is("ski") /\ alive[Ev.t]
+TSki  == /\ Is("ski") /\ alive[Ev.t] /\ ~(AF /\ Ev.rc = "err")
          /\ bad' = Fails({<<"C10", Ev.rc = "ok">>, <<"C10", NoRepeat(Ev.res)>>,
                           <<"C10", SeqToSet(Ev.res) = BySki(Ev.t, Ev.k)>>})
          /\ UNCHANGED <<vars, kf>>
@@ -53,7 +55,7 @@ TReset == /\ Is("reset") /\ bad' = {} /\ UNCHANGED kf
 TraceInit == /\ keys = [t \in T |-> {}] /\ hascb = [t \in T |-> FALSE] /\ alive = [t \in T |-> FALSE]
              /\ mirror = [t \in T |-> {}] /\ pending = FALSE /\ rc = "ok" /\ cbs = {}
              /\ ph = "idle" /\ rs = "A" /\ l = 1 /\ bad = {} /\ kf = {}
-TraceNext == TInit \/ TAdd \/ TRm \/ TSrcRm \/ TFailedOp \/ TFree \/ TCopy \/ TSwap \/ TDiff \/ TGet \/ TSki \/ TReset
+TraceNext == TInit \/ TAdd \/ TRm \/ TSrcRm \/ TFailedOp \/ TFree \/ TCopy \/ TSwap \/ TDiff \/ TGet \/ TSki \/ TLookupFailed \/ TReset
 TraceSpec == TraceInit /\ [][TraceNext]_tvars
 
 OK_C10 == "C10" \notin bad /\ (KF_SrcRmSilent \/ MirrorOK)
